@@ -42,7 +42,11 @@ class CopyPropagate:
                 and isinstance(d.site.expr, Var)
             ):
                 # direct assignment: x = y
-                # substitute all occurences of this definition of `x` with `y`
+                # substitute all occurences of this definition of `x` with `y`;
+                # this is only sound while `y` still holds the copied value, so
+                # require that `y` is never redefined
+                if len(def_use.name_to_defs[d.site.expr.name]) != 1:
+                    continue
                 if len(def_use.uses[d]) > 0:
                     # optimization: only propagate if there is at least one use
                     prop[d] = d.site.expr
